@@ -214,7 +214,15 @@ impl<'tcx> Walk<'tcx> {
             InstanceKind::Virtual(..) => false,
             _ => true,
         };
-        if !avail {
+        let krate = tcx.crate_name(did.krate).to_string();
+        let std_like = matches!(krate.as_str(), "core" | "alloc" | "std" | "hashbrown" | "compiler_builtins" | "std_detect" | "rustc_demangle" | "libc" | "unwind" | "cfg_if" | "memchr_std" | "addr2line" | "gimli" | "object" | "miniz_oxide" | "adler2" | "panic_unwind" | "panic_abort" | "proc_macro" | "test");
+        if !did.is_local() && !std_like {
+            // a dependency of evalexpr (optional features): boundary, classified per crate by the rules
+            leaves.push((0usize, Leaf { kind: format!("foreign:{}", krate), container: dpath.clone() }));
+        } else if dpath.contains("::precondition_check") || dpath.starts_with("core::ub_checks::") || dpath.starts_with("std::ub_checks::") {
+            // library UB checks (debug-assertion builds of std only): a boundary, reported as one class
+            leaves.push((0usize, Leaf { kind: "ubcheck".to_string(), container: dpath.clone() }));
+        } else if !avail {
             let kind = match inst.def {
                 InstanceKind::Intrinsic(_) => format!("intrinsic:{}", tcx.item_name(did)),
                 InstanceKind::Virtual(..) => format!("virtual:{}", dpath),
@@ -263,7 +271,12 @@ impl<'tcx> Walk<'tcx> {
                                 match pointees {
                                     Some((a, b)) => {
                                         let (st, tt) = tcx.struct_lockstep_tails_for_codegen(a, b, tenv);
-                                        if let ty::Dynamic(preds, ..) = tt.kind() {
+                                        if std::env::var("EVX_DEBUG").is_ok() && matches!(st.kind(), ty::Dynamic(..)) {
+                                            eprintln!("DYN-SOURCE in {} : {} -> {} (a={}, b={})", inst_name(tcx, inst), ty_str(sty), ty_str(tty), ty_str(a), ty_str(b));
+                                        }
+                                        if matches!(st.kind(), ty::Dynamic(..)) {
+                                            // dyn -> dyn (lifetime / upcast coercion): no new concrete type enters a vtable here
+                                        } else if let ty::Dynamic(preds, ..) = tt.kind() {
                                             if let Some(principal) = preds.principal() {
                                                 let tr = tcx.instantiate_bound_regions_with_erased(principal.with_self_ty(tcx, st));
                                                 for ent in tcx.vtable_entries(tr) {
@@ -481,8 +494,9 @@ pub fn monowalk<'tcx>(tcx: TyCtxt<'tcx>) -> J {
         callee_defs: BTreeSet<String>,
         leaves: BTreeMap<Leaf, Vec<String>>,
         insts: usize,
+        callee_local: bool,
     }
-    let mut sites: BTreeMap<(String, usize, String), Site> = BTreeMap::new();
+    let mut sites: BTreeMap<(String, usize, String, String), Site> = BTreeMap::new();
     let mut local_direct: BTreeMap<(String, usize), BTreeSet<String>> = BTreeMap::new();
     let mut visited_local: BTreeSet<String> = BTreeSet::new();
     let mut n_local = 0usize;
@@ -510,8 +524,8 @@ pub fn monowalk<'tcx>(tcx: TyCtxt<'tcx>) -> J {
                 None => continue,
             };
             let cn = &w.nodes[&c];
-            let key = (cpath.clone(), e.block, e.what.to_string());
-            let s = sites.entry(key).or_insert_with(|| Site { span: e.span.clone(), what: e.what.to_string(), callees: BTreeSet::new(), callee_defs: BTreeSet::new(), leaves: BTreeMap::new(), insts: 0 });
+            let key = (cpath.clone(), e.block, e.what.to_string(), def_path(tcx, c.def_id()));
+            let s = sites.entry(key).or_insert_with(|| Site { span: e.span.clone(), what: e.what.to_string(), callees: BTreeSet::new(), callee_defs: BTreeSet::new(), leaves: BTreeMap::new(), insts: 0, callee_local: cn.local });
             s.insts += 1;
             s.callees.insert(inst_name(tcx, c));
             s.callee_defs.insert(def_path(tcx, c.def_id()));
@@ -524,13 +538,14 @@ pub fn monowalk<'tcx>(tcx: TyCtxt<'tcx>) -> J {
     }
     let sites_j: Vec<J> = sites
         .into_iter()
-        .map(|((caller, block, _), s)| {
+        .map(|((caller, block, _, _), s)| {
             J::obj(vec![
                 ("caller", J::s(caller)),
                 ("block", J::n(block)),
                 ("what", J::s(s.what)),
                 ("span", J::s(s.span)),
                 ("callee_defs", strs(s.callee_defs)),
+                ("callee_local", J::Bool(s.callee_local)),
                 ("callee_insts", strs(s.callees.into_iter().take(6))),
                 ("n_insts", J::n(s.insts)),
                 (
